@@ -191,26 +191,72 @@ def read_set(fns, adt_path):
 
 # ------------------------------------------------------------------ A3 coverage
 
+_sink_param_memo = {}
+
+
+def sink_params(prog, fid, srx, depth=0):
+    """Parameter indexes of workspace function `fid` whose value (deep) reaches an argument of a sink call,
+    directly or through further workspace helpers (bounded)."""
+    key = (id(prog), fid, srx.pattern)
+    if key in _sink_param_memo:
+        return _sink_param_memo[key]
+    f = prog.fns.get(fid)
+    if f is None or depth > 5:
+        return frozenset()
+    _sink_param_memo[key] = frozenset()
+    out = set()
+    og = f.origins()
+    for bi, t in f.calls():
+        if f.blocks[bi]["cl"]:
+            continue
+        callee = f.callee_of(t) or ""
+        decl = t["fn"].get("d", "") if "d" in t["fn"] else ""
+        positions = None
+        if srx.search(callee) or srx.search(decl):
+            positions = range(len(t["args"]))
+        elif callee in prog.fns and callee != fid:
+            sp = sink_params(prog, callee, srx, depth + 1)
+            positions = [i - 1 for i in sp if 0 <= i - 1 < len(t["args"])]
+        if not positions:
+            continue
+        for ai in positions:
+            for atom in og.of_operand(t["args"][ai], deep=True):
+                if atom.kind == "param":
+                    out.add(atom.key)
+    res = frozenset(out)
+    _sink_param_memo[key] = res
+    return res
+
+
 def sink_field_atoms(fns, sink_pat, arg_filter=None):
-    """All (adt, variant, field) steps occurring in the deep origins of arguments of calls whose callee
-    matches sink_pat, over the given bodies."""
+    """All (adt, variant, field) steps occurring in the deep origins of values that reach a sink: arguments of
+    calls whose callee matches sink_pat, or arguments of workspace helpers whose corresponding parameter reaches
+    such a sink (summaries).  Returns ({step: [(fn id, line)]}, number of direct sink sites)."""
     srx = rx(sink_pat)
     covered = defaultdict(list)
     nsinks = 0
     for f in fns:
         og = None
         for bi, t in f.calls():
-            callee = f.callee_of(t) or ""
-            decl = t["fn"].get("d", "") if "d" in t["fn"] else ""
-            if not (srx.search(callee) or srx.search(decl)):
-                continue
             if f.blocks[bi]["cl"]:
                 continue
-            nsinks += 1
+            callee = f.callee_of(t) or ""
+            decl = t["fn"].get("d", "") if "d" in t["fn"] else ""
+            args = t["args"]
+            if srx.search(callee) or srx.search(decl):
+                nsinks += 1
+                positions = list(range(len(args)))
+            elif callee in f.prog.fns:
+                sp = sink_params(f.prog, callee, srx)
+                positions = [i - 1 for i in sp if 0 <= i - 1 < len(args)]
+                if not positions:
+                    continue
+            else:
+                continue
             if og is None:
                 og = f.origins()
-            args = t["args"]
-            for ai, a in enumerate(args):
+            for ai in positions:
+                a = args[ai]
                 if arg_filter and not arg_filter(ai, a):
                     continue
                 for atom in og.of_operand(a, deep=True):
@@ -222,6 +268,21 @@ def sink_field_atoms(fns, sink_pat, arg_filter=None):
                         for s in ret_field_steps(f.prog, atom.key[0]):
                             covered[s].append((f.id, t.get("line", 0)))
     return covered, nsinks
+
+
+def control_field_atoms(fns, sink_pat):
+    """Fields covered by control dependence: in a body that contains a sink call, a field whose discriminant is
+    matched on (each arm then feeds its own tag constant to the sink)."""
+    srx = rx(sink_pat)
+    out = set()
+    for f in fns:
+        if not f.call_sites(srx):
+            continue
+        for bi, si, place, rv, line in f.assigns():
+            if rv["r"] == "disc":
+                for s in field_steps(rv["p"]):
+                    out.add(s)
+    return out
 
 
 _ret_memo = {}
@@ -794,3 +855,48 @@ def absent_blocks_mutation(fn, guard_bb, mutation_blocks):
         if w is not None:
             return True, w
     return True, None
+
+
+def loop_heads(fn):
+    """Blocks calling Iterator::next (loop heads of `for` loops) — used to cut paths at iteration boundaries."""
+    return fn.call_sites(r"Iterator.*::next$|::next$")
+
+
+def const_defs_into(fn, callee_pat):
+    """Named constants (def paths) flowing into arguments of calls matching callee_pat."""
+    out = set()
+    og = fn.origins()
+    for bb in fn.call_sites(callee_pat):
+        for a in fn.blocks[bb]["t"]["args"]:
+            for at in og.of_operand(a, deep=True):
+                if at.kind == "const" and isinstance(at.key, str) and "::" in at.key:
+                    out.add(at.key)
+    return out
+
+
+def const_bytes_into(fn, callee_pat):
+    """Evaluated byte-string / integer constants flowing (directly) into args of calls matching callee_pat:
+    set of display strings such as 'const b"\\x01"'."""
+    out = set()
+    defs = fn.defs()
+    for bb in fn.call_sites(callee_pat):
+        for a in fn.blocks[bb]["t"]["args"]:
+            stack = [a]
+            seen = set()
+            while stack:
+                o = stack.pop()
+                if "k" in o:
+                    out.add(o.get("ev") or o.get("k"))
+                    continue
+                p = op_place(o)
+                if p is None or p[0] in seen:
+                    continue
+                seen.add(p[0])
+                for d in defs.get(p[0], ()):
+                    if d[0] == "assign":
+                        rv = d[4]
+                        for o2 in operands_of_rvalue(rv):
+                            stack.append(o2)
+                        if "p" in rv:
+                            stack.append({"c": rv["p"]})
+    return out
